@@ -422,6 +422,13 @@ def _dedup(hs):
 TL = TypeVar('TL', bound=List[int])
 TCL = TypeVar('TCL', List[int], Tuple[str, ...])
 NTList = NewType('NTList', List[int])
+# PEP 695 aliases (reduced by beartype to their values; a union-valued alias inside a narrower union
+# is re-flattened into the enclosing union)
+type AScalar = int | str | bytes
+type AListInt = List[int]
+type AOpt = AScalar | None
+type AGen[T] = List[T] | None
+type AWide = int | str | bytes | float | None
 
 
 def special_hints():
@@ -471,6 +478,11 @@ def special_hints():
         ('ItemsView[str,List[int]]', ItemsView[str, List[int]]), ('KeysView[Tuple[int,...]]', KeysView[Tuple[int, ...]]),
         ('Counter[Lit_a_None]', Counter[Literal['a', None]]), ('ChainMap[str,Optional[int]]', ChainMap[str, Optional[int]]),
         ('DefaultDict[str,List[int]]', DefaultDict[str, List[int]]),
+        ('AScalar', AScalar), ('AScalar|None', AScalar | None), ('List[AScalar|None]', List[AScalar | None]),
+        ('Optional[AListInt]', Optional[AListInt]), ('AOpt', AOpt), ('Dict[str,Optional[AScalar]]', Dict[str, Optional[AScalar]]),
+        ('AGen[int]', AGen[int]), ('Union[AScalar,float]', Union[AScalar, float]), ('Optional[AWide]', Optional[AWide]),
+        ('Union[AWide,UA]', Union[AWide, uc.UA]), ('Tuple[AOpt,...]', Tuple[AOpt, ...]), ('Union[UA,AOpt]', Union[uc.UA, AOpt]),
+        ('Union[List[int],AWide]', Union[List[int], AWide]),
     ]
     return out
 
@@ -509,6 +521,7 @@ OVERRIDE_HINTS = {
     'List[int]': List[int], 'List[str]': List[str], 'int|None': Optional[int], 'str|bytes': Union[str, bytes],
     'int|str': Union[int, str], 'Tuple[int,...]': Tuple[int, ...], 'Lit1': Literal[1], 'float|int': Union[float, int],
     'Set[str]': Set[str], 'UA|None': Optional[uc.UA], 'str|float': Union[str, float],
+    'int|str|bytes': Union[int, str, bytes], 'UA|int|str|None': Union[uc.UA, int, str, None],
 }
 
 
